@@ -148,7 +148,7 @@ class C14(Check):
         if index % 10 == 4:
             # a slow peer: one answer takes from half a minute to many minutes; meanwhile other callers come
             # and go, and the wall clock may be stepped.  Coarse ticks keep the simulated minutes cheap.
-            slow = rng2.choice([31.0, 45.0, 90.0, 400.0, 4000.0])
+            slow = rng2.choice([31.0, 45.0, 90.0, 400.0])
             callers[0]["start"] = 0.0
             callers[0]["reqs"] = callers[0]["reqs"][:1]
             callers[0]["reqs"][0].update({"fate": "once", "delay": slow, "stall_on_send": 0.0, "stall_after": None})
